@@ -50,7 +50,12 @@ def r1_descriptor(chk):
     prog = chk.prog
     g = prog.func(f"{JOB}:Job.__get__")
     chk.analysed(g)
-    stores = [s for s in walk_no_nested(g.node) if isinstance(s, (ast.Assign, ast.AugAssign)) and any(p.startswith("self.") or p.startswith("self[") for p in stored_paths(s))]
+    asg0 = assignments(g.node)
+    aliases = {"self"} | {n for n, vals in asg0.items() if any(isinstance(v, ast.Name) and v.id == "self" for v in vals)}
+    stores = [s for s in walk_no_nested(g.node) if isinstance(s, (ast.Assign, ast.AugAssign)) and any(p.split(".")[0].split("[")[0] in aliases and ("." in p or "[" in p) for p in stored_paths(s))]
+    stores += [c for c in walk_no_nested(g.node) if isinstance(c, ast.Call) and isinstance(c.func, ast.Attribute) and c.func.attr in ("update", "setdefault", "__setattr__", "clear", "pop")
+               and norm(c.func.value).split(".")[0] in aliases]
+    stores += [c for c in walk_no_nested(g.node) if isinstance(c, ast.Call) and call_name(c) == "setattr" and c.args and norm(c.args[0]) in aliases]
     rets = [s for s in walk_no_nested(g.node) if isinstance(s, ast.Return)]
     chk.require(rets, "Job.__get__ has no return")
     key = f"{g.key}:no-per-driver-state-on-shared-descriptor"
